@@ -549,9 +549,20 @@ void finish(vh::Case &c, Setup &s, const std::vector<Expected> &expected,
   s.provider->Shutdown();
 }
 
+void one_scope_op(vh::Reader &rd, ThreadState &ts, std::string &notes, const std::string &label);
+
+// 0..2 scope operations before an emit, so that "span A ends, span B starts" happens between two
+// emits (a freed span's storage is then typically reused by the next span)
 void maybe_scope_op(vh::Reader &rd, ThreadState &ts, std::string &notes, const std::string &label)
 {
-  size_t k = rd.weighted({4, 4, 2});
+  unsigned n = static_cast<unsigned>(rd.weighted({3, 5, 3}));
+  for (unsigned i = 0; i < n; ++i)
+    one_scope_op(rd, ts, notes, label);
+}
+
+void one_scope_op(vh::Reader &rd, ThreadState &ts, std::string &notes, const std::string &label)
+{
+  size_t k = rd.weighted({2, 4, 3});
   if (k == 1)
   {
     tr::SpanContext cx = sg::gen_span_context(rd, true);
